@@ -42,6 +42,23 @@ Theorem C10_run_end_of_file : forall cfg r, f_at_end cfg = true ->
 Proof. exact fmt_run_end. Qed.
 Print Assumptions C10_run_end_of_file.
 
+(* re-indentation invariance of a run: after the tab / line-end normalisation (canon_ws: the first four
+   substitutions), two runs that agree once the blanks at the edges of their lines are removed
+   (strip_line_edges: trailing blanks of every line followed by a line feed; leading blanks of blank and
+   comment lines) are formatted to the same text *)
+Theorem C10_run_depends_on_norm : forall cfg r1 r2,
+  strip_line_edges (f_at_start cfg) (canon_ws r1) = strip_line_edges (f_at_start cfg) (canon_ws r2) ->
+  fmt_run cfg r1 = fmt_run cfg r2.
+Proof. exact fmt_run_depends_on_norm. Qed.
+Print Assumptions C10_run_depends_on_norm.
+
+Example C10_norm_nonvacuous :
+  let r1 := [SP; TAB; NL; TAB; SP; DASH; DASH; 99; SP; SP; NL; SP; SP; SP] in
+  let r2 := [NL; DASH; DASH; 99; NL] in
+  r1 <> r2 /\ strip_line_edges false (canon_ws r1) = strip_line_edges false (canon_ws r2) /\
+  fmt_run (mk_fcfg false false 2 1) r1 = [NL; SP; SP; DASH; DASH; 99; NL; SP; SP].
+Proof. split; [discriminate|]. split; vm_compute; reflexivity. Qed.
+
 Example C10_nonvacuous_S17 :
   fmt_run (mk_fcfg false false 2 1) [NL; NL] = [NL; NL; SP; SP].
 Proof. vm_compute. reflexivity. Qed.
